@@ -175,7 +175,7 @@ func c15Ops() []Op {
 }
 
 func runC15(r *ev.Run) {
-	r.Rule = "every header byte 0..99 x every value 0..255 on a valid base image per page size, judged at Open (must-reject headers also with the read lock refused and with a writer reported in RESERVED while the file is opened) and on the re-read path of a long-lived handle (swap in, read with every operation, swap back, read again), and as the first transaction of a handle that was opened before the change; non-trivial = a mutation that changes the reference verdict (must-reject) or a must-accept mutation of a field"
+	r.Rule = "every header byte 0..99 x every value 0..255 on a valid base image per page size, judged at Open (must-reject headers also with the read lock refused and with a writer reported in RESERVED while the file is opened) and on the re-read path of a long-lived handle (swap in, read with every operation, swap back, read again), and as the first transaction of a handle that was opened before the change; non-trivial = a mutation that changes the reference verdict (must-reject) or a must-accept mutation of a field; every ordered pair (p1, p2) of legal page sizes on real files: a handle (one that read, one that was only opened) on a 3-page database of page size p1, another connection rewrites the file with page size p2, the handle must read what SQLite reads"
 	sizes := []int{512, 4096, 65536}
 	if r.Thorough() {
 		sizes = PageSizes
@@ -203,6 +203,7 @@ func runC15(r *ev.Run) {
 		})
 	}
 	c15RealFiles(r)
+	c15PageSizePairs(r)
 }
 
 func c15Baseline(r *ev.Run, base []byte, ops []Op) []OpResult {
@@ -461,4 +462,78 @@ func c15RealFiles(r *ev.Run) {
 		}
 		l.Close()
 	}
+}
+
+// c15PageSizePairs: "every legal page size ... accepted ... again whenever the header is re-read": a
+// long-lived handle on a database of page size p1 (3 pages: no multiple of any larger page size), another
+// connection rewrites the file with page size p2 (VACUUM), the handle reads again. Every ordered pair of
+// legal page sizes; a handle that read before and one that was only opened.
+func c15PageSizePairs(r *ev.Run) {
+	dir := ev.TmpDir("c15ps")
+	defer os.RemoveAll(dir)
+	sizes := []int{512, 1024, 2048, 4096, 8192, 16384, 32768, 65536}
+	n := 0
+	for _, p1 := range sizes {
+		for _, p2 := range sizes {
+			if p1 == p2 {
+				continue
+			}
+			for _, kind := range []string{"read-before", "opened-only"} {
+				n++
+				path := fmt.Sprintf("%s/ps%d.sqlite", dir, n)
+				l, err := lite.Open(path, "")
+				if err != nil {
+					r.Harness("C15 page size pairs: %v", err)
+					return
+				}
+				if err := l.Exec(fmt.Sprintf("PRAGMA page_size=%d; CREATE TABLE fruit (id INTEGER PRIMARY KEY, name); CREATE TABLE veg (name TEXT PRIMARY KEY, n) WITHOUT ROWID; INSERT INTO fruit VALUES (1, 'apple'), (2, 'pear'); INSERT INTO veg VALUES ('leek', 1), ('kale', 2)", p1)); err != nil {
+					r.Harness("C15 page size pairs: %v", err)
+					l.Close()
+					return
+				}
+				l.Close()
+				st, _ := os.Stat(path)
+				art := map[string]interface{}{"family": "page-size-change-under-a-handle", "page_size_at_open": p1, "page_size_after_vacuum": p2, "file_bytes_at_open": st.Size(), "handle": kind}
+				e, err := OpenEnv(path)
+				r.Eval(1)
+				r.Trans(2)
+				r.NontrivialN(1)
+				if err != nil {
+					r.Violation("C15:realfile-rejected:page-size", fmt.Sprintf("a database of page size %d written by SQLite is refused: %v", p1, err), art)
+					continue
+				}
+				if kind == "read-before" {
+					if _, err := LittleDump(e.H, e.D); err != nil {
+						r.Violation("C15:realfile-rejected:page-size", fmt.Sprintf("a database of page size %d written by SQLite: %v", p1, err), art)
+						e.H.Close()
+						continue
+					}
+				}
+				l, err = lite.Open(path, "")
+				if err != nil {
+					e.H.Close()
+					continue
+				}
+				werr := l.Exec(fmt.Sprintf("INSERT INTO fruit VALUES (3, 'plum'); PRAGMA page_size=%d; VACUUM", p2))
+				want, derr := LiteDump(l)
+				hdr := readHeader(path)
+				l.Close()
+				if werr != nil || derr != nil || len(hdr) < 18 {
+					r.Harness("C15 page size pairs: writer: %v %v", werr, derr)
+					e.H.Close()
+					continue
+				}
+				r.Validated(1)
+				got, gerr := LittleDump(e.H, e.D)
+				if gerr != nil {
+					r.Violation("C15:valid-header-refused:page-size-changed", fmt.Sprintf("a handle (%s) opened at page size %d, the file rewritten with page size %d: the valid database is refused: %v", kind, p1, p2, gerr), art)
+				} else if got.String() != want.String() {
+					r.Violation("C15:page-size-changed:misread", fmt.Sprintf("a handle (%s) opened at page size %d, the file rewritten with page size %d: %s", kind, p1, p2, firstLineDiff(got.String(), want.String())), art)
+				}
+				e.H.Close()
+				os.Remove(path)
+			}
+		}
+	}
+	r.Set("page_size_pairs", n)
 }
